@@ -180,6 +180,61 @@ def equivalence_chain(spec):
     return False
 
 
+K3_TAG = " [second search: a pair whose two labels already had rules from other pairings was accepted without re-validating its children under the new pairing]"
+
+
+def diagnose(classes, packs):
+    """Classify a finder failure (diagnosis only, never an oracle): re-run the plain finder's two
+    searches on fresh searchers and look at how the second search accepted its pairs.  Returns the
+    tag of known finding K3 when the failure is exactly that one, else ''."""
+    from collections import defaultdict
+
+    from comb_spec_searcher import bijection as B
+
+    try:
+        searchers = [CombinatorialSpecificationSearcher(c, p) for c, p in zip(classes, packs)]
+        f = B.ParallelSpecFinder(*searchers)
+        shortcuts = []
+        orig = B.ParallelSpecFinder._search_matching_info_recursion_base_cases  # pylint: disable=protected-access
+
+        def wrapped(id1, id2, mi, mi1, mi2, sp1, sp2):
+            both = id1 in sp1 and id2 in sp2 and sp1[id1] != ()
+            r = orig(id1, id2, mi, mi1, mi2, sp1, sp2)
+            if both and r == B.ParallelSpecFinder._VALID:  # pylint: disable=protected-access
+                shortcuts.append((id1, id2, sp1[id1], sp2[id2]))
+            return r
+
+        B.ParallelSpecFinder._search_matching_info_recursion_base_cases = staticmethod(wrapped)  # pylint: disable=protected-access
+        try:
+            mi = defaultdict(dict)
+            if not f._find(f._pi1.root_eq_label, f._pi2.root_eq_label, mi, set()):  # pylint: disable=protected-access
+                return ""
+            sp = f._search_matching_info(mi)  # pylint: disable=protected-access
+        finally:
+            B.ParallelSpecFinder._search_matching_info_recursion_base_cases = staticmethod(orig)  # pylint: disable=protected-access
+        if sp is None:
+            return ""
+        sp1, sp2 = sp
+
+        def bad_below(a, b, seen):
+            if (a, b) in seen:
+                return False
+            seen.add((a, b))
+            ca, cb = sp1.get(a), sp2.get(b)
+            if ca is None or cb is None or (ca, cb) not in mi[(a, b)]:
+                return True
+            return any(bad_below(ca[i], cb[k], seen) for k, i in enumerate(mi[(a, b)][(ca, cb)]))
+
+        for a, b, ra, rb in shortcuts:
+            if (ra, rb) not in mi[(a, b)]:
+                return ""  # the short-cut itself accepted an unmatched pair: not K3
+            if sp1.get(a) == ra and sp2.get(b) == rb and any(bad_below(ra[i], rb[k], set()) for k, i in enumerate(mi[(a, b)][(ra, rb)])):
+                return K3_TAG
+    except Exception:  # pylint: disable=broad-except
+        return ""
+    return ""
+
+
 def execute(R, ctx):
     clock = SimClock(**R["clock"])
     rng = SimRandom(R["rng"]["policy"], R["rng"]["seed"])
@@ -188,6 +243,7 @@ def execute(R, ctx):
     def listener(kind, *p):
         if kind == "q.next":
             state["packets"] += 1
+            ctx.ev("pkt", p[0].label, tuple(map(repr, p[0].strategies)), p[0].inferral)
             clock.event()
             if state["packets"] > CAP:
                 raise Cap()
@@ -255,7 +311,19 @@ def execute(R, ctx):
                     raise Violation("C13:no-specification-claimed", f"the finder says no specification exists but ordinary searches find one for both {classes[0]} and {classes[1]}") from e
                 ctx.set_state(("nospec", repr(classes)))
                 return
-            res = finder.find()
+            try:
+                res = finder.find()
+            except Cap:
+                raise
+            except Exception as e:  # pylint: disable=broad-except
+                import traceback
+
+                where = traceback.extract_tb(e.__traceback__)[-1]
+                note = diagnose(classes, packs)
+                raise Violation(
+                    f"C13:finder-raised-{type(e).__name__}",
+                    f"{Finder.__name__}.find() raised {type(e).__name__}: {str(e)[:120]} at {where.name} for {classes[0]} / {classes[1]}{note}",
+                ) from e
         except Cap:
             ctx.probe("packet_cap")
             ctx.set_state(("cap", repr(R["w1"]), repr(R["w2"])))
@@ -264,6 +332,7 @@ def execute(R, ctx):
             if css.ruledb.equivdb[css.start_label] != css.start_label:
                 ctx.probe("root_not_own_representative")
                 not_fresh = True
+        ctx.ev("result", None if res is None else [sorted(map(repr, sp.rules_dict)) for sp in res])
         if res is None:
             ctx.probe("result_none")
             ctx.set_state(("none", repr(classes), R["variant"]))
@@ -278,6 +347,8 @@ def execute(R, ctx):
             specval.check_counts(spec, c, R["nmax"], R["order_seed"] + i, ctx, tag=f"C13:spec{i + 1}")
         chain = any(equivalence_chain(s) for s in res)
         note = " [a specification has consecutive equivalence rules through visible classes]" if chain else ""
+        if not chain and not (Isomorphism.check(res[0], res[1]) and Isomorphism.check(res[1], res[0])):
+            note = diagnose(classes, packs)
         if chain:
             ctx.probe("equivalence_chain_in_spec")
         if not Isomorphism.check(res[0], res[1]):
